@@ -51,11 +51,13 @@ type item struct {
 
 // childIn is the work order of the child process.
 type childIn struct {
-	Universes map[string]tyutil.Universe `json:"universes"`
-	Items     []item                     `json:"items"`
-	From      int                        `json:"from"`   // first row to evaluate (0-based)
-	OnlyJ     int                        `json:"only_j"` // -1: all columns
-	Skip      map[string][]int           `json:"skip"`   // row -> columns known to kill the process
+	Universes  map[string]tyutil.Universe `json:"universes"`
+	Items      []item                     `json:"items"`
+	From       int                        `json:"from"`        // first row to evaluate (0-based)
+	CarefulRow int                        `json:"careful_row"` // row in which every call is announced before it is made (-1: none)
+	Skip       map[string][]string        `json:"skip"`        // row -> calls "j:view" known to kill the process
+	SkipParse  []int                      `json:"skip_parse"`  // terms whose print+parse kills the process
+	SkipU      map[string]bool            `json:"skip_u"`      // universes given up after too many deaths
 }
 
 type badCall struct {
@@ -67,8 +69,10 @@ type badCall struct {
 
 // childRow is one row written by the child (all indices 0-based).
 type childRow struct {
-	Kind     string           `json:"kind"` // "parsed" | "row"
+	Kind     string           `json:"kind"` // "atparse" | "parsed" | "at" | "row"
 	I        int              `json:"i"`
+	J        int              `json:"j,omitempty"`
+	V        string           `json:"v,omitempty"`
 	Views    map[string][]int `json:"views,omitempty"`
 	Bad      []badCall        `json:"bad,omitempty"`
 	ParseErr string           `json:"parse_err,omitempty"`
@@ -181,7 +185,15 @@ func child(path string) {
 		S[i] = shared[it.U].Type(it.T)
 		D[i] = tyutil.NewBuilder(in.Universes[it.U], true).Type(it.T)
 	}
+	skipParse := map[int]bool{}
+	for _, i := range in.SkipParse {
+		skipParse[i] = true
+	}
 	for i, it := range in.Items {
+		if skipParse[i] {
+			continue
+		}
+		emit(childRow{Kind: "atparse", I: i})
 		var r childRow
 		r.Kind, r.I = "parsed", i
 		var err error
@@ -200,23 +212,29 @@ func child(path string) {
 	emit(childRow{Kind: "parsed", I: -1})
 	timer := time.NewTimer(time.Hour)
 	for i := in.From; i < n; i++ {
-		skip := map[int]bool{}
-		for _, j := range in.Skip[strconv.Itoa(i)] {
-			skip[j] = true
+		if in.SkipU[in.Items[i].U] {
+			continue
+		}
+		skip := map[string]bool{}
+		for _, jv := range in.Skip[strconv.Itoa(i)] {
+			skip[jv] = true
 		}
 		r := childRow{Kind: "row", I: i, Views: map[string][]int{}}
 		for _, v := range viewNames {
 			r.Views[v] = []int{}
 		}
 		for j := 0; j < n; j++ {
-			if in.Items[j].U != in.Items[i].U || skip[j] || (in.OnlyJ >= 0 && j != in.OnlyJ) {
+			if in.Items[j].U != in.Items[i].U {
 				continue
 			}
 			pairs := map[string][2]types.Type{"ss": {S[i], S[j]}, "sd": {S[i], D[j]}, "ds": {D[i], S[j]}, "ps": {P[i], S[j]}, "sp": {S[i], P[j]}}
 			for _, v := range viewNames {
 				xy := pairs[v]
-				if xy[0] == nil || xy[1] == nil {
-					continue // print+parse failed for that term: reported once, by the parent
+				if xy[0] == nil || xy[1] == nil || skip[strconv.Itoa(j)+":"+v] {
+					continue // print+parse failed for that term / the call kills the process: reported by the parent
+				}
+				if i == in.CarefulRow {
+					emit(childRow{Kind: "at", I: i, J: j, V: v})
 				}
 				eq, st, msg := timedEqual(xy[0], xy[1], timer)
 				if st != "" {
@@ -229,9 +247,6 @@ func child(path string) {
 			}
 		}
 		emit(r)
-		if in.OnlyJ >= 0 {
-			break
-		}
 	}
 	os.Exit(0)
 }
@@ -418,65 +433,65 @@ var reBad = regexp.MustCompile(`<<"BADPAIR", "([a-z]+)", (\d+), (\d+), (TRUE|FAL
 // record runs the real code on the items and lets TLC judge the recording.
 func record(rep *mbt.Report, unis map[string]tyutil.Universe, items []item, tier string) {
 	n := len(items)
-	in := childIn{Universes: unis, Items: items, OnlyJ: -1, Skip: map[string][]int{}}
+	in := childIn{Universes: unis, Items: items, CarefulRow: -1, Skip: map[string][]string{}, SkipU: map[string]bool{}}
 	rows := make([]*childRow, n)
 	parseErr := map[int]childRow{}
-	for guard := 0; ; guard++ {
+	noResult := func(i, j int, v, diag string) {
+		rep.Fail(mbt.Failure{Signature: "C16|Equal|no result (process died: stack overflow, crash or hang)|kinds=" + items[i].T.K + "," + items[j].T.K,
+			What: fmt.Sprintf("types.Equal(%s, %s) [%s] in universe %s does not return: %s", items[i].T.LL(), items[j].T.LL(), viewWhat[v], items[i].U, mbt.Truncate(diag, 300)),
+			Case: map[string]interface{}{"u": items[i].U, "defs": unis[items[i].U], "a": items[i].T, "b": items[j].T}})
+	}
+	for deaths := 0; ; {
 		got, died, diag := runChild(in, 15*time.Minute)
+		parsedAll := false
+		var lastAt, lastAtParse *childRow
 		for k := range got {
 			r := got[k]
-			switch {
-			case r.Kind == "parsed" && r.I >= 0:
-				parseErr[r.I] = r
-			case r.Kind == "row":
+			switch r.Kind {
+			case "atparse":
+				lastAtParse = &got[k]
+			case "parsed":
+				if r.I >= 0 {
+					parseErr[r.I] = r
+				} else {
+					parsedAll = true
+				}
+			case "at":
+				lastAt = &got[k]
+			case "row":
 				rows[r.I] = &got[k]
 			}
 		}
 		if !died {
 			break
 		}
-		// first missing row: find the columns that kill the process, one child per column
+		deaths++
+		if !parsedAll {
+			if lastAtParse == nil {
+				mbt.Infra("child process died before doing anything: %s", diag)
+			}
+			i := lastAtParse.I
+			parseErr[i] = childRow{Kind: "parsed", I: i, ParseErr: "no result: process died (stack overflow, crash or hang): " + mbt.Truncate(diag, 200)}
+			in.SkipParse = append(in.SkipParse, i)
+			continue
+		}
 		i := in.From
-		for i < n && rows[i] != nil {
+		for i < n && (rows[i] != nil || in.SkipU[items[i].U]) {
 			i++
 		}
-		if i >= n || guard > 20 {
+		if i >= n {
 			mbt.Infra("child process died without a missing row: %s", diag)
 		}
-		rep.Note("the process evaluating Equal died in row %d (%s); isolating the pair", i, mbt.Truncate(diag, 200))
-		var killers []int
-		merged := &childRow{Kind: "row", I: i, Views: map[string][]int{}}
-		for _, v := range viewNames {
-			merged.Views[v] = []int{}
+		if in.CarefulRow == i && lastAt != nil && lastAt.I == i {
+			noResult(i, lastAt.J, lastAt.V, diag)
+			key := strconv.Itoa(i)
+			in.Skip[key] = append(in.Skip[key], strconv.Itoa(lastAt.J)+":"+lastAt.V)
 		}
-		for j := 0; j < n; j++ {
-			if items[j].U != items[i].U {
-				continue
-			}
-			one := in
-			one.From, one.OnlyJ = i, j
-			g, d, dg := runChild(one, 60*time.Second)
-			if d {
-				killers = append(killers, j)
-				rep.Fail(mbt.Failure{Signature: "C16|Equal|no result (process died: stack overflow, crash or hang)|kinds=" + items[i].T.K + "," + items[j].T.K,
-					What: fmt.Sprintf("types.Equal(%s, %s) in universe %s does not return: %s", items[i].T.LL(), items[j].T.LL(), items[i].U, mbt.Truncate(dg, 300)),
-					Case: map[string]interface{}{"u": items[i].U, "defs": unis[items[i].U], "a": items[i].T, "b": items[j].T}})
-				continue
-			}
-			for _, r := range g {
-				if r.Kind == "row" {
-					for v, js := range r.Views {
-						merged.Views[v] = append(merged.Views[v], js...)
-					}
-					merged.Bad = append(merged.Bad, r.Bad...)
-				}
-			}
-		}
-		rows[i] = merged
-		in.Skip[strconv.Itoa(i)] = killers
-		in.From = i + 1
-		if in.From >= n {
-			break
+		in.From, in.CarefulRow = i, i
+		if deaths > 40 {
+			rep.Note("the process evaluating Equal died more than 40 times; the remaining rows of universe %s are not evaluated", items[i].U)
+			in.SkipU[items[i].U] = true
+			deaths = 20
 		}
 	}
 	// failures seen by the child itself
@@ -490,25 +505,36 @@ func record(rep *mbt.Report, unis map[string]tyutil.Universe, items []item, tier
 		T     *tyutil.Term     `json:"t"`
 		Views map[string][]int `json:"views"`
 	}
-	recs := make([]recRow, n)
+	newIdx := make([]int, n) // 0-based row -> 1-based index in the recording, 0 = not evaluated
+	var recs []recRow
+	var recItems []item
+	for i := range items {
+		if rows[i] != nil {
+			recItems = append(recItems, items[i])
+			newIdx[i] = len(recItems)
+		}
+	}
 	pairs := 0
 	perU := map[string]int{}
-	for _, it := range items {
+	for _, it := range recItems {
 		perU[it.U]++
 	}
 	for i := range items {
 		r := rows[i]
 		if r == nil {
-			mbt.Infra("row %d missing from the recording", i)
+			continue
 		}
-		recs[i] = recRow{U: items[i].U, T: items[i].T, Views: map[string][]int{}}
+		rr := recRow{U: items[i].U, T: items[i].T, Views: map[string][]int{}}
 		for _, v := range viewNames {
 			js := []int{}
 			for _, j := range r.Views[v] {
-				js = append(js, j+1)
+				if newIdx[j] > 0 {
+					js = append(js, newIdx[j])
+				}
 			}
-			recs[i].Views[v] = js
+			rr.Views[v] = js
 		}
+		recs = append(recs, rr)
 		for _, b := range r.Bad {
 			rep.Fail(mbt.Failure{Signature: "C16|Equal|" + b.St + "|kinds=" + items[i].T.K + "," + items[b.J].T.K,
 				What: fmt.Sprintf("types.Equal(%s, %s) [%s] in universe %s: %s %s", items[i].T.LL(), items[b.J].T.LL(), viewWhat[b.V], items[i].U, b.St, mbt.Truncate(b.Msg, 200)),
@@ -516,6 +542,11 @@ func record(rep *mbt.Report, unis map[string]tyutil.Universe, items []item, tier
 		}
 		pairs += perU[items[i].U]
 	}
+	if len(recs) == 0 {
+		return
+	}
+	items = recItems
+	n = len(items)
 	for i := range items {
 		for j := range items {
 			if items[i].U == items[j].U {
@@ -524,7 +555,11 @@ func record(rep *mbt.Report, unis map[string]tyutil.Universe, items []item, tier
 		}
 	}
 	// views of terms whose print+parse failed are empty; do not let TLC flag them a second time
-	for i := range parseErr {
+	for old := range parseErr {
+		if newIdx[old] == 0 {
+			continue
+		}
+		i := newIdx[old] - 1
 		recs[i].Views["ps"] = recs[i].Views["ss"]
 		for k := range recs {
 			if recs[k].U == recs[i].U {
